@@ -235,3 +235,44 @@ def kf_c06_set_order_tag_octets(f):
             if [m.name for m in canon] != [m.name for m in byoct]:
                 return True
     return False
+
+
+def kf_c06_ext_implied_of_element(f):
+    """EXTENSIBILITY IMPLIED module, SEQUENCE OF / SET OF whose element is an inline
+    (not referenced) SEQUENCE or SET without its own extension marker, at least one
+    element present: the compiler's pre_process_extensibility_implied_type does not
+    descend into 'element', so the element type gets no extension bit."""
+    if not f.get('ext_implied') or f['kind'] not in ('both-deviate', 'encoder-deviates', 'decoder-deviates'):
+        return False
+    t, v, env = _live(f)
+    if t is None:
+        return False
+
+    def inline(x):
+        while isinstance(x, Tag):
+            x = x.inner
+        return x
+
+    stack = [(t, v, 0)]
+    while stack:
+        node, val, d = stack.pop()
+        node = inline(node)
+        if d > 30:
+            continue
+        if isinstance(node, Ref):
+            stack.append((env[node.name], val, d + 1))
+        elif isinstance(node, Of) and isinstance(val, list):
+            e = inline(node.elem)
+            if isinstance(e, Seq) and not e.ext and len(val) > 0:
+                return True
+            for x in val[:4]:
+                stack.append((node.elem, x, d + 1))
+        elif isinstance(node, Seq) and isinstance(val, dict):
+            for m in all_members(node):
+                if m.name in val:
+                    stack.append((m.t, val[m.name], d + 1))
+        elif isinstance(node, Cho) and isinstance(val, tuple) and len(val) == 2:
+            for m in all_members(node):
+                if m.name == val[0]:
+                    stack.append((m.t, val[1], d + 1))
+    return False
